@@ -103,11 +103,46 @@ def run_solve_paths(mutate=None):
     return r
 
 
+SOL_ = "tdgl.solution.solution"
+
+
+def run_solution_snapshot(mutate=None):
+    """the seed-device guard of TDGLSolver.solve compares seed_solution.device with the device being simulated; that only rejects a seed
+    from a device that was modified in place afterwards if the Solution keeps its own snapshot.  Contract of the REAL Solution.__init__
+    (device stubbed, data loading stubbed): the recorded device is a copy made at construction that shares the mesh."""
+    mut = [(o, n) for (m, o, n) in (mutate or []) if m == SOL_]
+    L = instrument.load(SOL_, mutate=mut, vc=vcm.VC())
+    Sol = L["Solution"]
+
+    def body():
+        class Dev:
+            def __init__(self, origin=None):
+                self.origin, self.mesh = origin, None
+
+            def copy(self, *a, **k):
+                return Dev(origin=self)
+        d = Dev()
+        d.mesh = "MESH"
+        real_load = Sol.load_tdgl_data
+        Sol.load_tdgl_data = lambda self_, solve_step=-1: None
+        try:
+            opts = type("O", (), {"field_units": "mT", "current_units": "uA"})()
+            s_ = Sol(device=d, options=opts, path="/x/o.h5", applied_vector_potential="A", terminal_currents=None, disorder_epsilon=1.0, total_seconds=0.0)
+        finally:
+            Sol.load_tdgl_data = real_load
+        sym.check_terms("C19.seed_guard.solution_records_a_snapshot_of_the_device", s_.device is not d and getattr(s_.device, "origin", None) is d,
+                        note="solution.device is the caller's device object" if s_.device is d else "")
+        sym.check_terms("C19.seed_guard.snapshot_shares_the_mesh", getattr(s_.device, "mesh", None) == "MESH")
+    obls, n = explore(body)
+    return dict(obls=obls, paths=n, sources=[L.info()], consistent=True)
+
+
 def units():
     return [Unit("TDGLSolver.__init__", "tdgl.solver.solver:TDGLSolver.__init__ / validate_terminal_currents", lambda m=None: ic.run_init(m, prefixes=("C19.",)), props=["C19"], timeout=900),
             Unit("SolverOptions.validate", O_ + ":SolverOptions.validate", run_validate, props=["C19"], timeout=300),
             Unit("TDGLSolver.solve[paths]", "tdgl.solver.solver:TDGLSolver.solve", run_solve_paths, props=["C19"], timeout=300),
-            Unit("Device.__eq__", "tdgl.device.device:Device.__eq__", run_device_eq, props=["C19"], timeout=300)]
+            Unit("Device.__eq__", "tdgl.device.device:Device.__eq__", run_device_eq, props=["C19"], timeout=300),
+            Unit("Solution.__init__[device snapshot]", SOL_ + ":Solution.__init__", run_solution_snapshot, props=["C19"], timeout=300)]
 
 
 def replay_scope(unit, obl):
